@@ -58,6 +58,7 @@ def cells(tier, seed):
                 () if tier == "quick" else ((2, 1, 2, 3), (3, 2, 3, 4))):
             out.append({"hetbad": ak, "Dx": Dx, "Dy": Dy, "Dk": Dk, "Da": Da,
                         "group": ["hetbad", ak], "cost": 0.5})
+    out += hist_cells(tier)
     out += repotests.cells(tier)
     return out
 
@@ -378,6 +379,8 @@ def run_cell(cell, rec, seed):
         return repotests.run(cell, rec)
     if "hetbad" in cell:
         return run_hetbad(cell, rec, seed)
+    if "hist" in cell:
+        return run_history(cell, rec, seed)
     i, D, maxlen = cell["prog"], cell["D"], cell["maxlen"]
     prng = gen.rng_for(seed, "C04prog", i)
     ops = gen_program(prng, D, maxlen)
@@ -421,3 +424,316 @@ def run_cell(cell, rec, seed):
                   detail={"schedule": "A"}, mech=f"second-call-differs:{k}")
     if i < 3:
         rec.sample({"program": info["program"], "final_log_integral": fA["log_integral"]})
+
+
+# ------------------------------------------------------------------------------ histories
+# An object that was queried, then changed in place by one of the declared mutators (update,
+# normalize, update_Sigma, update_phi) must behave exactly like a freshly constructed object with
+# the same parameters - whatever was computed (and possibly cached) before the mutation.
+HIST_KINDS = (["pdf", "diag_pdf", "measure", "diag_measure"]
+              + ["cond:" + k for k in ("full", "diag", "identity", "identity_diag", "nn")]
+              + ["approx:lrbf", "approx:lsem"])
+
+
+def hist_cells(tier):
+    out = []
+    shapes = [(2, 2), (3, 3)] if tier == "quick" else [(2, 2), (3, 3), (1, 4), (4, 2), (2, 5)]
+    reps = 1 if tier == "quick" else 4
+    for kind in HIST_KINDS:
+        for (R, D) in shapes:
+            for rep in range(reps):
+                out.append({"hist": kind, "R": R, "D": D, "rep": rep,
+                            "group": ["hist", kind, R, D], "cost": 3.0})
+    return out
+
+
+def _battery_measure(o, ctx, is_pdf):
+    import jax
+    x, A, a, B, b, f2, fR, q, dims, W, wb, idx = (ctx[k] for k in (
+        "x", "A", "a", "B", "b", "f2", "fR", "q", "dims", "W", "wb", "idx"))
+    D = o.D
+    res = {
+        "evaluate_ln": o.evaluate_ln(x),
+        "log_integral": o.log_integral(),
+        "integral": o.integral(),
+        "E[x]": o.integrate("x"),
+        "E[xx']": o.integrate("xx'"),
+        "E[(Ax+a)(Bx+b)']": o.integrate("(Ax+a)(Bx+b)'", A_mat=A, a_vec=a, B_mat=B, b_vec=b),
+        "E[(Ax+a)'(Bx+b)]": o.integrate("(Ax+a)'(Bx+b)", A_mat=A, a_vec=a, B_mat=A, b_vec=a),
+        "E[xb'xx']": o.integrate("xb'xx'", b_vec=J(np.ones(D))),
+        "E[x(A'x+a)x']": o.integrate("x(A'x + a)x'", A_mat=J(np.ones((1, D))), a_vec=J(np.ones(1))),
+        "E[quartic]": o.integrate("(Ax+a)'(Bx+b)(Cx+c)'(Dx+d)", A_mat=A, a_vec=a, B_mat=A, b_vec=a,
+                                  C_mat=B, c_vec=b, D_mat=B, d_vec=b),
+        "E[log f]": o.integrate("log u(x)", factor=fR),
+        "product": o.product(),
+        "product.log_integral": o.product().log_integral(),
+        "get_density": o.get_density(),
+        "slice": o.slice(idx),
+        "multiply": o.multiply(f2, update_full=True),
+        "multiply.log_integral": o.multiply(f2, update_full=True).log_integral(),
+        "hadamard.log_integral": o.hadamard(fR, update_full=True).log_integral(),
+    }
+    if is_pdf:
+        res.update({
+            "entropy": o.entropy(), "kl(o,q)": o.kl_divergence(q), "kl(q,o)": q.kl_divergence(o),
+            "sample": o.sample(jax.random.PRNGKey(3), 4),
+            "linear_sum": o.get_density_of_linear_sum(W, wb),
+        })
+        if D > 1:
+            res.update({
+                "get_marginal": o.get_marginal(dims),
+                "condition_on": o.condition_on(dims[:1]),
+                "condition_on_explicit": o.condition_on_explicit(dims[:1], dims[1:]) if D > 2
+                else o.condition_on_explicit(IXn([0]), IXn([1])),
+                "condition_on.condition_on_x": o.condition_on(dims[:1]).condition_on_x(
+                    J(np.ones((2, 1)))),
+            })
+    return res
+
+
+def IXn(a):
+    return np.asarray(a, dtype=np.int32)
+
+
+def _battery_cond(c, ctx, kw):
+    x, y, yN, p, q, idx = (ctx[k] for k in ("x", "y", "yN", "p", "q", "idx"))
+    res = {}
+    if kw:
+        res["condition_on_x"] = c.condition_on_x_u(x, **kw)
+        res["set_control_variable"] = c.set_control_variable(kw["u"])
+    else:
+        res["condition_on_x"] = c.condition_on_x(x)
+        res["get_conditional_mu"] = c.get_conditional_mu(x)
+        res["slice"] = c.slice(idx)
+    c.set_y(yN, **kw)  # a call with another number of observations first
+    res["set_y"] = c.set_y(y, **kw)
+    res["set_y.product"] = c.set_y(y, **kw).product()
+    for nm in ("affine_joint_transformation", "affine_marginal_transformation",
+               "affine_conditional_transformation", "conditional_entropy"):
+        res[nm] = getattr(c, nm)(p, **kw)
+    if not kw:
+        res["mutual_information"] = c.mutual_information(p)
+    if c.R == 1 or (hasattr(c, "M") and c.__dict__.get("M") is not None and c.R == q.R):
+        res["integrate_log_conditional"] = c.integrate_log_conditional(q, **kw)
+    if c.R == 1:
+        res["integrate_log_conditional_y"] = c.integrate_log_conditional_y(p, y=y[:p.R], **kw)
+    return res
+
+
+def _battery_approx(c, ctx):
+    x, p, q, y = (ctx[k] for k in ("x", "p", "q", "y"))
+    res = {"get_conditional_mu": c.get_conditional_mu(x), "condition_on_x": c.condition_on_x(x)}
+    for nm in ("affine_joint_transformation", "affine_marginal_transformation",
+               "affine_conditional_transformation"):
+        res[nm] = getattr(c, nm)(p)
+    res["integrate_log_conditional"] = c.integrate_log_conditional(q)
+    res["integrate_log_conditional_y"] = c.integrate_log_conditional_y(p, y=y)
+    return res
+
+
+def run_history(cell, rec, seed):
+    # one generation regime for every (re)construction inside a history: the hostile-scale switch
+    # changes how many random numbers a builder consumes
+    with gen.calm():
+        return _run_history(cell, rec, seed)
+
+
+def _run_history(cell, rec, seed):
+    from .c12 import params_of, _cmp
+
+    kind, R, D, rep = cell["hist"], cell["R"], cell["D"], cell["rep"]
+    L = build.lib()
+    info = {"history": kind, "R": R, "D": D, "rep": rep}
+    rec.set_ctx(cell=cell)
+    key = (seed, "C04hist", kind, R, D, rep)
+
+    def compare(tag, ra, rb, mutation):
+        for name in rb:
+            if name not in ra:
+                continue
+            try:
+                _cmp(rec, f"{kind}.{name}", params_of(ra[name]), params_of(rb[name]),
+                     dict(info, op=name, compared=tag, mutation=mutation),
+                     f"history-dependence:{kind}:{mutation}:{name}")
+            except Exception as e:
+                rec.count("history_compare_error")
+
+    def guarded(fn, what, mutation):
+        try:
+            return fn()
+        except Exception as e:
+            rec.evaluations += 1
+            rec.fail(f"raises:history:{kind}:{mutation}:{what}:{type(e).__name__}@{core.exc_site(e)}",
+                     dict(info, exc=core.exc_info(e)))
+            return None
+
+    if kind in ("pdf", "diag_pdf", "measure", "diag_measure"):
+        is_pdf = kind.endswith("pdf")
+        diag = kind.startswith("diag")
+        with gen.calm():
+            rng = gen.rng_for(*key)
+            _, t = build.mk_measure(kind, rng, R, D, kappa=float(rng.choice(gen.KAPPAS[:4])))
+            ctx = {"x": J(gen.points(rng, 3, t.mu, t.Sigma)), "A": J(gen.vec(rng, 2, D)),
+                   "a": J(gen.vec(rng, 2)), "B": J(gen.vec(rng, 3, D)), "b": J(gen.vec(rng, 3)),
+                   "f2": build.mk_factor("rank1", rng, 2, D)[0],
+                   "fR": build.mk_factor("general", rng, R, D)[0],
+                   "q": build.mk_pdf(rng, R, D, kappa=10.0, diag=diag)[0],
+                   "dims": IXn(rng.permutation(D)[: max(1, D - 1)]),
+                   "W": J(gen.lin_map(rng, R, 1, D)), "wb": J(gen.vec(rng, R, 1)),
+                   "idx": IXn(rng.integers(0, R, size=2))}
+            d_new, td = build.mk_pdf(rng, 1, D, kappa=10.0, scale=2.0, diag=diag)
+            i0 = int(rng.integers(0, R))
+
+        def make():
+            if is_pdf:
+                cls = L.pdf.GaussianDiagPDF if diag else L.pdf.GaussianPDF
+                return cls(Sigma=J(t.Sigma), mu=J(t.mu))
+            cls = L.measure.GaussianDiagMeasure if diag else L.measure.GaussianMeasure
+            return cls(Lambda=J(t.Lambda), nu=J(t.nu), ln_beta=J(t.ln_beta))
+
+        mutations = ["normalize"] + (["update"] if is_pdf else [])
+        for mutation in mutations:
+            def mutate(o):
+                if mutation == "update":
+                    o.update(IXn([i0]), d_new)
+                else:
+                    o.normalize()
+
+            def fresh():
+                if mutation == "update":
+                    mu2, S2 = t.mu.copy(), t.Sigma.copy()
+                    mu2[i0], S2[i0] = td.mu[0], td.Sigma[0]
+                    cls = L.pdf.GaussianDiagPDF if diag else L.pdf.GaussianPDF
+                    return cls(Sigma=J(S2), mu=J(mu2))
+                if is_pdf:
+                    return make()
+                cls = L.measure.GaussianDiagMeasure if diag else L.measure.GaussianMeasure
+                return cls(Lambda=J(t.Lambda), nu=J(t.nu),
+                           ln_beta=J(-orc.gauss_lnZ(t.Lambda, t.nu)))
+
+            rec.cell(["history", kind, mutation, R, D], True)
+            warm = make()
+            if guarded(lambda: _battery_measure(warm, ctx, is_pdf), "battery-before", mutation) is None:
+                continue
+            guarded(lambda: mutate(warm), "mutate", mutation)
+            r_warm = guarded(lambda: _battery_measure(warm, ctx, is_pdf), "battery-after", mutation)
+            cold = make()
+            guarded(lambda: mutate(cold), "mutate", mutation)
+            r_cold = guarded(lambda: _battery_measure(cold, ctx, is_pdf), "battery-cold", mutation)
+            r_fresh = guarded(lambda: _battery_measure(fresh(), ctx, is_pdf), "battery-fresh",
+                              mutation)
+            if r_fresh is None:
+                continue
+            if r_warm is not None:
+                compare("queried-then-mutated vs fresh", r_warm, r_fresh, mutation)
+            if r_cold is not None:
+                compare("mutated vs fresh", r_cold, r_fresh, mutation)
+        return
+
+    if kind.startswith("cond:"):
+        ck = kind.split(":")[1]
+        C = L.conditional
+        with gen.calm():
+            rng = gen.rng_for(*key)
+            Dx = D
+            Dy = D if ck.startswith("identity") else int(rng.integers(1, 4))
+            Rc = 1 if ck == "nn" else R
+            c0, tc, kw = build.mk_conditional(ck, gen.rng_for(*key, "c"), Rc, Dy, Dx, kappa=10.0)
+            isdiag = ck in ("diag", "identity_diag")
+            S_big = gen.spd_batch(rng, 1 if ck == "nn" else Rc, Dy, 100.0, diag=isdiag)
+            S_base = np.asarray(c0.Sigma, dtype=float)
+            S_tiny = S_base * (1.0 + 4e-6)
+            N = Rc if Rc > 1 else 3
+            ctx = {"x": J(gen.vec(rng, 2, Dx)), "y": J(gen.vec(rng, N, Dy)),
+                   "yN": J(gen.vec(rng, N if Rc > 1 else 5, Dy)),
+                   "p": build.mk_pdf(rng, 1, Dx, kappa=10.0)[0],
+                   "q": build.mk_pdf(rng, Rc if ck in ("full", "diag") else 1, Dy + Dx,
+                                     kappa=10.0)[0],
+                   "idx": IXn(rng.integers(0, Rc, size=2))}
+
+        def make(Sig=None):
+            c, _, _ = build.mk_conditional(ck, gen.rng_for(*key, "c"), Rc, Dy, Dx, kappa=10.0)
+            if Sig is not None:
+                # a fresh object with the target covariance: same class, same mean parameters
+                if ck == "nn":
+                    c = C.NNControlGaussianConditional(
+                        Sigma=J(Sig), num_cond_dim=Dx, num_control_dim=c.num_control_dim,
+                        control_func=c0.control_func)
+                elif ck.startswith("identity"):
+                    c = type(c)(Sigma=J(Sig))
+                else:
+                    c = type(c)(M=J(tc.M), b=J(tc.b), Sigma=J(Sig))
+            return c
+
+        def make0():
+            if ck == "nn":
+                return c0 if False else C.NNControlGaussianConditional(
+                    Sigma=J(S_base), num_cond_dim=Dx, num_control_dim=c0.num_control_dim,
+                    control_func=c0.control_func)
+            return make()
+
+        for mutation, S_new in (("update_Sigma", S_big), ("update_Sigma[tiny change]", S_tiny)):
+            rec.cell(["history", kind, mutation, R, D], True)
+            warm = make0()
+            if guarded(lambda: _battery_cond(warm, ctx, kw), "battery-before", mutation) is None:
+                continue
+            guarded(lambda: warm.update_Sigma(J(S_new)), "mutate", mutation)
+            r_warm = guarded(lambda: _battery_cond(warm, ctx, kw), "battery-after", mutation)
+            cold = make0()
+            guarded(lambda: cold.update_Sigma(J(S_new)), "mutate", mutation)
+            r_cold = guarded(lambda: _battery_cond(cold, ctx, kw), "battery-cold", mutation)
+            r_fresh = guarded(lambda: _battery_cond(make(S_new), ctx, kw), "battery-fresh", mutation)
+            if r_fresh is None:
+                continue
+            if r_warm is not None:
+                compare("queried-then-mutated vs fresh", r_warm, r_fresh, mutation)
+            if r_cold is not None:
+                compare("mutated vs fresh", r_cold, r_fresh, mutation)
+        return
+
+    if kind.startswith("approx:"):
+        ak = kind.split(":")[1]
+        A_ = L.approx
+        with gen.calm():
+            rng = gen.rng_for(*key)
+            Dx, Dy, Dk = D, 2, max(2, R)
+            _, t1 = build.mk_approx(ak, gen.rng_for(*key, "a"), Dy, Dx, Dk, kappa=10.0)
+            _, t2 = build.mk_approx(ak, gen.rng_for(*key, "b"), Dy, Dx, Dk, kappa=10.0)
+            ctx = {"x": J(gen.vec(rng, 3, Dx)), "p": build.mk_pdf(rng, 1, Dx, kappa=10.0, scale=0.5)[0],
+                   "q": build.mk_pdf(rng, 1, Dy + Dx, kappa=10.0, scale=0.5)[0],
+                   "y": J(gen.vec(rng, 1, Dy))}
+
+        def make(t, kern=None):
+            kern = kern or t
+            if ak == "lrbf":
+                return A_.LRBFGaussianConditional(M=J(t.M), b=J(t.b), mu=J(kern.centers),
+                                                  length_scale=J(kern.length_scale), Sigma=J(t.Sigma))
+            return A_.LSEMGaussianConditional(M=J(t.M), b=J(t.b), W=J(kern.W), Sigma=J(t.Sigma))
+
+        def mutate(c):
+            # new kernel parameters written in place, then update_phi(), as a learning step does
+            if ak == "lrbf":
+                c.mu = J(t2.centers)
+                c.length_scale = J(t2.length_scale)
+            else:
+                c.w0 = J(t2.W[:, 0])
+                c.W = J(t2.W[:, 1:])
+            c.update_phi()
+
+        mutation = "update_phi"
+        rec.cell(["history", kind, mutation, R, D], True)
+        warm = make(t1)
+        if guarded(lambda: _battery_approx(warm, ctx), "battery-before", mutation) is None:
+            return
+        guarded(lambda: mutate(warm), "mutate", mutation)
+        r_warm = guarded(lambda: _battery_approx(warm, ctx), "battery-after", mutation)
+        cold = make(t1)
+        guarded(lambda: mutate(cold), "mutate", mutation)
+        r_cold = guarded(lambda: _battery_approx(cold, ctx), "battery-cold", mutation)
+        r_fresh = guarded(lambda: _battery_approx(make(t1, kern=t2), ctx), "battery-fresh", mutation)
+        if r_fresh is None:
+            return
+        if r_warm is not None:
+            compare("queried-then-mutated vs fresh", r_warm, r_fresh, mutation)
+        if r_cold is not None:
+            compare("mutated vs fresh", r_cold, r_fresh, mutation)
